@@ -1053,7 +1053,9 @@ TimePasses(m) ==
   \* delay (15 s), so a waiting StartStage / CompleteWorkflow / rescheduled message wakes only when
   \* no delayed RunTask is pending.
   /\ m \in q /\ m.delayed /\ ~m.lock /\ Idle /\ NothingVisible /\ ~\E x \in q : x.lock
-  /\ (m.typ # "RunTask" => ~\E x \in q : x.delayed /\ x.typ = "RunTask")
+  \* (a RunTask the PROCESSOR rescheduled after a handler error - attempts > 0 - waits for the processor's retry delay,
+  \*  which is of the order of the handlers' delay: no order is assumed between it and an older delayed message)
+  /\ (m.typ # "RunTask" => ~\E x \in q : x.delayed /\ x.typ = "RunTask" /\ x.att = 0)
   /\ q' = (q \ {m}) \cup {[m EXCEPT !.delayed = FALSE]}
   /\ lbl' = [name |-> "TimePasses", mid |-> m.id, c |-> TRUE]
   /\ UNCHANGED <<wf, st, tk, dlq, done, claims, nextId, pushed, wk, ledger, gh, cnt>>
